@@ -105,3 +105,38 @@ def c07_categorical_dictionaries(case, out):
     if sig.startswith("read_raised") and "category" not in out.get("detail", "").lower() and "IndexError" not in sig:
         return False
     return _cat_lists_differ(case["batches"], case.get("partition_on") or ())
+
+
+@predicate
+def c10_narrow_int_wire_type(case, out):
+    """i8 / i16 fields (IntType.bitWidth, RowGroup.ordinal) are written with the i32 or i64 wire type:
+    cencoding.write_thrift knows only bool / i32 / i64 / binary / list / struct."""
+    sig = out["sig"]
+    if not sig.startswith("conformance|wire_type|"):
+        return False
+    field = sig.split("|")[2]
+    from vf.props import c10
+    I = c10._idl()
+    sname, fname = field.split(".")
+    f = next((f for f in I.structs.get(sname, []) if f.name == fname), None)
+    return f is not None and f.type[0] in ("byte", "i16")
+
+
+@predicate
+def c10_field_14_dropped(case, out):
+    """cencoding.write_thrift iterates field ids 1..13: ColumnMetaData.bloom_filter_offset and
+    LogicalType.UUID (both id 14) are dropped when a structure is (re-)serialised."""
+    sig = out["sig"]
+    from vf.props import c10
+    if sig.startswith("lost_field|"):
+        return sig.split("|")[1] in ("bloom_filter_offset", "UUID")
+    if sig.startswith(("conformance|union_arity|LogicalType", "conformance|missing_required|", "roundtrip_not_equal|", "copy_differs|")):
+        return c10.has_field14(case["struct"], case["value"])
+    return False
+
+
+@predicate
+def c10_to_bytes_overflow(case, out):
+    """ThriftObject.to_bytes serialises into a 500000-byte buffer (larger only for RowGroup/FileMetaData by a
+    heuristic); a longer structure is memcpy'd past its end."""
+    return bool(case.get("allow_big")) and (out["sig"].startswith("crash") or out["sig"].startswith(("not_thrift", "reparse_raised", "roundtrip", "trailing", "value_changed", "lost_field", "conformance")))
